@@ -305,9 +305,12 @@ def ecl_env(rng, game, tables, feats_override=None):
     if feats_override is not None: feats = set(feats_override)
     for x in list(feats):
         if rng.chance(0.1): feats.discard(x)
+    feats.add('diffruns')
     env = Env(iv, fv, expr_calls, feats)
     env.math_fns = ['sin', 'cos']
     env.nonconst_conds = True
+    # without a mapfile the difficulty flags of old ECL are called 0..7
+    env.diff_names = ['0', '1', '2', '3']; env.diff_extra_names = ['4', '5', '6', '7']
     return env, lit_calls
 
 
